@@ -320,9 +320,8 @@ class GHE(BaseGHE):
             else:
                 n_hours = len(q_dot)
             q_dot = -1.0 * np.array(q_dot)  # Convert loads to rejection
-            # print("Times:",self.times)
-            if len(self.times) == 0:
-                self.times = np.arange(1, n_hours + 1, 1)
+            # always build the hourly axis: self.times may hold the hybrid axis of an earlier simulation
+            self.times = np.arange(1, n_hours + 1, 1)
             t = self.times
             self.loading = q_dot
 
